@@ -1,7 +1,7 @@
 (* C10 — Connection-scoped state never leaks into the next connection or session.  Statements
    only; proofs in Conn/Scope.v, Conn/ScopeConnack.v, Conn/PidInv.v, Conn/PidInv2.v.  Nothing else may be added to this file. *)
 From MQ Require Import Base.Prelude Alloc.Alloc Framing.Framing Conn.Types Conn.ConnRecord Conn.Step Conn.Run Corr.ConnTrace Conn.Scope
-                       Conn.PidInv Conn.PidInv2 Conn.ScopeConnack.
+                       Conn.PidInv Conn.PidInv2 Conn.ScopeConnack Conn.Own Conn.PairQos Conn.PairQos5 Conn.PairConc Conn.PairBi Conn.PairBi5 Conn.PairHandshake5 Conn.PairReconnect.
 
 (* EVERY state (no reachability needed, hence every first-connection history and every close path):
    notify_closed resets the packet-size limits, the alias tables, the partially received frame, the
@@ -127,6 +127,34 @@ Theorem C10_reused_client_session_not_present : forall g c c1 e p v q,
   end.
 Proof. exact reused_client_session_not_present. Qed.
 Print Assumptions C10_reused_client_session_not_present.
+
+
+(* THE PAIR (Conn/PairReconnect.v): WHATEVER state two v5.0 endpoints are in — anything negotiated, half-done, stored, awaited
+   or handled on the previous connection — once both have been told the transport is closed, a Clean Start handshake
+   establishes the two-way pair invariant exactly as on a first connection (for every newly negotiated limit), and every
+   schedule of publications and deliveries on the new connection ends with exactly-once delivery both ways and full
+   Receive Maximum accounts: nothing of the old connection or session is in the way *)
+Theorem C10_reconnect_reestablishes_pair_invariant : forall gA gB A B A0 evA B0 evB cn ca l,
+  OWN gA A -> OWN gB B -> c_version A = V50 -> c_version B = V50 -> c_auto_pub A = true -> c_auto_pub B = true ->
+  role_client_ok gA = true -> role_server_ok gB = true ->
+  (* both sides are told the transport is closed, in whatever state they are *)
+  do_closed A = Ok (A0, evA) -> do_closed B = Ok (B0, evB) ->
+  k_type cn = T_CONNECT -> k_ver cn = V50 -> k_flag cn = true -> k_tam cn = None -> k_size cn <= MQTT_PACKET_SIZE_NO_LIMIT ->
+  k_type ca = T_CONNACK -> k_ver ca = V50 -> k_rc ca = 0 -> k_flag ca = false -> k_tam ca = None -> k_rm ca <> Some 0 -> k_mps ca <> Some 0 ->
+  k_size ca <= limit_after (k_mps cn) MQTT_PACKET_SIZE_NO_LIMIT ->
+  2 + g_idw gA <= limit_after (k_mps ca) MQTT_PACKET_SIZE_NO_LIMIT -> 2 + g_idw gB <= limit_after (k_mps cn) MQTT_PACKET_SIZE_NO_LIMIT ->
+  Forall good_act25 l ->
+  exists A1 e1 B1 e2 B2 e3 A2 e4 s1 s2,
+    step gA A0 (OSend cn) = Ok (A1, e1, []) /\ deliver gB B0 cn = Ok (B1, e2) /\
+    step gB B1 (OSend ca) = Ok (B2, e3, []) /\ deliver gA A1 ca = Ok (A2, e4) /\
+    errors e1 = [] /\ errors e2 = [] /\ errors e3 = [] /\ errors e4 = [] /\
+    inv25 gA gB (mkBi A2 B2 [] [] [] [] [] []) /\
+    run_sched25 gA gB (mkBi A2 B2 [] [] [] [] [] []) l = Some s1 /\
+    run_sched25 gA gB s1 (drain2 (measure2 s1)) = Some s2 /\
+    qab s2 = [] /\ qba s2 = [] /\ delB s2 = pubA s1 /\ delA s2 = pubB s1 /\
+    vacancy (ea s2) = c_send_max (ea s2) /\ vacancy (eb s2) = c_send_max (eb s2).
+Proof. exact reconnect_reestablishes_pair_invariant. Qed.
+Print Assumptions C10_reconnect_reestablishes_pair_invariant.
 
 (* C10_partial: on the MODEL side what remains outside the theorems is traffic BETWEEN that CONNECT and its
    CONNACK (a reused object still holds its old session there, by design: the session may yet be resumed).  The
